@@ -1059,7 +1059,15 @@ pub fn generate_c14(rng: &mut Rng) -> RunSpec {
         let victim = rng.below(3) as u8;
         let fb = target[rng.below(target.len() as u64) as usize].0;
         let k = if rng.chance(2, 3) { KeySel::Old(rng.below(16) as u32, fb) } else { KeySel::Kv(fb) };
-        ops.push(Op::GetMut { m: victim, k, p: 900_000 });
+        if uni <= 1 || cfg.elem == ElemClass::Zst || rng.chance(1, 2) {
+            ops.push(Op::GetMut { m: victim, k, p: 900_000 });
+        } else {
+            // same length, same values, one key exchanged for a key nobody holds
+            let absent = (0..uni + 1).find(|x| !inset.contains(x)).unwrap_or(uni);
+            let old = target[rng.below(target.len() as u64) as usize];
+            ops.push(Op::Remove { m: victim, k: KeySel::Kv(old.0) });
+            ops.push(Op::Insert { m: victim, k: KeySel::Kv(absent), p: old.1 });
+        }
         let victim = rng.below(3) as u8;
         let k = if rng.chance(2, 3) { KeySel::Old(rng.below(16) as u32, fb) } else { KeySel::Kv(fb) };
         ops.push(Op::SRemove { s: victim, k });
